@@ -44,3 +44,51 @@ class UidExpunge(Harness):
         if after != want:
             return {"observed": {"before": before, "after": after}, "clause": f"remaining UIDs == {want}"}
         return None
+
+
+class CopyExpansion(Harness):
+    """COPY / UID COPY copy exactly the messages the set denotes (C15 e, C05 c)."""
+
+    scope = "source of 5 messages after expunging UID 2 (UIDs 1,3,4,5); sets *, 4:*, 9:*, 2:3, 1,5, 3:1 in UID and sequence form"
+    exhaustive = False
+
+    def inputs(self, tier, seed):
+        for s in ["*", "4:*", "9:*", "2:3", "1,5", "3:1"]:
+            for uid in (True, False):
+                yield {"set": s, "uid": uid}
+
+    def check(self, inp):
+        import re
+
+        async def go():
+            async with World({"inbox": 5, "other": 0}) as w:
+                a = w.session("a")
+                await a.cmd("SELECT inbox")
+                await a.cmd("STORE 2 +FLAGS (\\Deleted)")
+                await a.cmd("EXPUNGE")
+                uids = uids_of(await a.cmd("UID SEARCH ALL"))
+                out = await a.cmd(("UID " if inp["uid"] else "") + f"COPY {inp['set']} other")
+                b = w.session("b")
+                await b.cmd("SELECT other")
+                subj = await b.cmd("FETCH 1:* (BODY.PEEK[HEADER.FIELDS (SUBJECT)])") if not any("NO" in l.split(" ")[1:2] for l in out) else []
+                return uids, out, subj
+
+        uids, out, subj = run(go())
+        n = len(uids)
+        mx = uids[-1] if inp["uid"] else n
+        named = set()
+        for part in inp["set"].split(","):
+            if ":" in part:
+                x, y = [mx if t == "*" else int(t) for t in part.split(":")]
+                named |= set(range(min(x, y), max(x, y) + 1))
+            else:
+                named.add(mx if part == "*" else int(part))
+        tagged = [l for l in out if re.match(r"^a\d+ ", l)][-1]
+        if not inp["uid"] and any(x < 1 or x > n for x in named):
+            return None if " BAD" in tagged or " NO" in tagged else {"observed": out, "clause": "non-UID number outside 1..N is rejected"}
+        want_uids = [u for u in uids if u in named] if inp["uid"] else [uids[i - 1] for i in sorted(named)]
+        # original message i has subject "message i" and got UID i
+        got = sorted(int(m.group(1)) for l in subj for m in re.finditer(r"Subject: message (\d+)", l))
+        if got != sorted(want_uids):
+            return {"observed": {"copied": got, "reply": tagged}, "clause": f"copied exactly the messages with UIDs {sorted(want_uids)}"}
+        return None
